@@ -23,7 +23,7 @@ pub fn spec() -> Spec {
         case_cap_s: |t| t.pick(900, 14400),
         rule: "one case per admissible 3-dimensional symbol (spherical tiles and vertex figures by the reference model, branching in {1,2,3,4,6}) on every class of D-sets of size <= M, plus the 20 corpus symbols. Per case: the verdict under EVERY schedule of the simplify choice point with at most 1 deviation (G3; symbols that never reach simplify have the single empty schedule); the verdict of every relabeling (all for size <= 3, systematic family above), of the dual and of every entry of covers(s, k) that the reference model accepts as an admissible covering. Oracle: a verdict is returned (no panic, no time-out); the verdict class is the same across schedules, relabelings and dual; never yes on a symbol and no on one of its covers or vice versa; every yes is re-derived: pseudo_toroidal_cover is a finite oriented branch-free covering (reference model), its H1 is Z^3 (textbook presentation + invariant factors) and it has 7 / 13 classes of subgroups of index 2 / 3; every corpus symbol gets yes. Non-trivial = the symbol passes the invariant filter (reaches the cover construction) or is a corpus symbol.",
         assumptions: &["the completeness of the table of space-group invariants (src/data/euclideanInvariants.data) cannot be re-derived offline; what is checked is totality, invariance, cover-consistency, certificate soundness of every yes, and the corpus", "covers(s, k) supplies covers; each is verified to be a covering of the symbol by the reference model", "the 7/13 subgroup counts of a certificate use the crate's presentation and low-index enumeration (validated by C09/C12)"],
-        bounds: |t| json!({"admissible_max_size": t.pick(3, 4), "choice_deviation_bound": 1, "cover_sheets": t.pick(2, 3), "prism_family_base_2d_max_size": t.pick(4, 5), "cover_sheets_above_a_yes_symbol_of_at_most_6_chambers": t.pick(4, 6), "such_covers_have_at_most_chambers": t.pick(12, 18)}),
+        bounds: |t| json!({"admissible_max_size": t.pick(3, 4), "choice_deviation_bound": 1, "cover_sheets": t.pick(2, 3), "prism_family_base_2d_max_size": t.pick(4, 5), "lattice_family": {"roots": "corpus symbols with <= 3 chambers", "sheets_per_level": if t.is_thorough() { json!([4, 3, 2, 2]) } else { json!([4, 2]) }, "max_chambers": t.pick(12, 24), "expanded_per_fingerprint": t.pick(1, 2)}, "cover_sheets_above_a_yes_symbol_of_at_most_6_chambers": t.pick(4, 6), "such_covers_have_at_most_chambers": t.pick(12, 18)}),
     }
 }
 
@@ -218,6 +218,10 @@ fn run(ctx: &mut Ctx) {
     if ctx.nviolations() > 0 {
         return;
     }
+    lattice_family(ctx);
+    if ctx.nviolations() > 0 {
+        return;
+    }
     // prisms over every euclidean 2-dimensional symbol of size <= 4 [5] (12 [15] chambers): all wallpaper groups
     // times the infinite dihedral group, in the harness's numbering and under renumberings
     for t in euclidean_2d_symbols(tier.pick(4, 5)) {
@@ -231,6 +235,77 @@ fn run(ctx: &mut Ctx) {
             }
         }
     }
+}
+
+/// Breadth-first search down the subgroup lattice of known-euclidean groups: states are symbols (up to
+/// isomorphism), a transition passes to a cover with at most k sheets (k = 4 at the roots, then 3, then 2).
+/// Every state is a finite cover of a corpus symbol, hence euclidean: the verdict No on any of them contradicts
+/// the Yes of its root.  To reach many different space-group types instead of many symbols of the same type,
+/// states are grouped by a fingerprint (first homology, orientability, number of 2-sheeted covers) and at
+/// most `per_type` symbols per fingerprint are expanded.  Every worker runs the same deterministic expansion;
+/// the verdicts are shared out.
+fn lattice_family(ctx: &mut Ctx) {
+    let tier = ctx.tier;
+    let max_chambers = tier.pick(12, 24);
+    let per_type = tier.pick(1, 2);
+    let levels: Vec<usize> = if tier.is_thorough() { vec![4, 3, 2, 2] } else { vec![4, 2] };
+    let roots: Vec<(String, RS)> = corpus().into_iter().filter(|(_, s)| s.n <= 3).collect();
+    let mut seen: BTreeSet<RS> = BTreeSet::new();
+    let mut per_fp: std::collections::BTreeMap<(Option<Vec<i128>>, bool, usize), usize> = Default::default();
+    let mut frontier: Vec<(RS, String)> = vec![];
+    for (t, s) in roots {
+        if seen.insert(s.iso_key_bfs()) {
+            frontier.push((s, t));
+        }
+    }
+    for (depth, k) in levels.iter().enumerate() {
+        let mut next: Vec<(RS, String)> = vec![];
+        for (s, root) in &frontier {
+            let list = ctx.supply("covers", || covers(&to_partial_dsym(s), *k).iter().map(|c| from_dsym(c)).collect::<Vec<_>>());
+            for c in list.into_iter().flatten() {
+                if c.n <= s.n || c.n > max_chambers || valid_symbol(&c).is_err() || !c.commutes() || !admissible3d(&c) || c.covers(s).is_none() {
+                    continue;
+                }
+                if !seen.insert(c.iso_key_bfs()) {
+                    continue;
+                }
+                ctx.add("lattice_states", if ctx.shard == 0 { 1 } else { 0 });
+                // verdict of this state (shared out between the workers)
+                if ctx.take() {
+                    let ccase = json!({"family": "lattice", "root": root, "depth": depth + 1, "sym": rs_to_json(&c)});
+                    ctx.announce(&ccase);
+                    ctx.count(true);
+                    ctx.ops(1);
+                    let v = verdict(&c);
+                    ctx.add(&format!("lattice_verdict_{}", v.class()), 1);
+                    match v.class() {
+                        'N' => {
+                            ctx.violation("cover-contradiction", ccase, format!("verdict {:?} for a {}-chamber finite cover of the known-euclidean symbol {}", v, c.n, root), c.n as u64);
+                            return;
+                        }
+                        'P' => {
+                            ctx.violation("panic:is_euclidean", ccase, format!("{:?}", v), c.n as u64);
+                            return;
+                        }
+                        _ => {}
+                    }
+                }
+                // expand only a few symbols per fingerprint
+                let two = ctx.supply("covers", || covers(&to_partial_dsym(&c), 2).len());
+                let fp = (h1(&c), c.is_oriented(), two);
+                let cnt = per_fp.entry(fp).or_insert(0);
+                if *cnt < per_type {
+                    *cnt += 1;
+                    next.push((c, root.clone()));
+                }
+            }
+        }
+        ctx.max("lattice_depth", depth as i64 + 1);
+        frontier = next;
+        // smallest symbols first: cheaper verdicts reach more types
+        frontier.sort_by_key(|(s, _)| s.n);
+    }
+    ctx.add("lattice_types", if ctx.shard == 0 { per_fp.len() as i64 } else { 0 });
 }
 
 fn replay(ctx: &mut Ctx, case: &Value) {
